@@ -98,6 +98,12 @@ CHECKS.update({
         "Every named type, generic, superclass and type-parameter bound of every stub file must resolve to a built-in mapping, a declaration of the same file, an import of that file (or a declaration of the same Safe-DS package), and every import line must name a package and a declaration present in the generated stub set, placeholder stubs included.",
         "§5 C11",
     ),
+    "C17": (
+        "E1 package engine",
+        "property-based testing: Hypothesis-drawn class hierarchies (chains, multiple private bases, explicit diamonds, two modules, overriding at every level); oracle = member set and definer from Python's own MRO (classes built with type()), sub list = public direct bases in source order",
+        "For every public class of every generated hierarchy the stub must show each public method of the class and of its private ancestors exactly once, with the definition Python's MRO selects (identified by a parameter named after the defining class), must not name private ancestors in 'sub', and must list the public direct bases in source order, imported when defined in the other module.",
+        "§5 C17",
+    ),
 })
 
 NOT_YET = "check not built yet in this session (work in progress, see DESIGN.md §9)"
